@@ -298,13 +298,33 @@ def transpose(score: ScoreLike, interval: Interval) -> ScoreLike:
     import partitura.score as s
     import sys
 
-    # Copy needs to be deep, otherwise the recursion limit will be exceeded
+    # The deep copy follows the links between time points and their objects
+    # recursively, so the depth it needs grows with the length of the timeline:
+    # count everything that is copied along (for a part inside a part group
+    # that is the whole group tree) and allow for it
+    if isinstance(score, s.Score):
+        roots = list(score.parts)
+    else:
+        roots = [score]
+        while getattr(roots[0], "parent", None) is not None:
+            roots = [roots[0].parent]
+    n_linked = 0
+    for root in roots:
+        if isinstance(root, (s.Part, s.PartGroup)):
+            for part in s.iter_parts(root):
+                n_linked += len(part._points) + sum(
+                    len(objs)
+                    for tp in part._points
+                    for objs in tp.starting_objects.values()
+                )
     old_recursion_depth = sys.getrecursionlimit()
-    sys.setrecursionlimit(10000)
-    # Deep copy of score
-    new_score = copy.deepcopy(score)
-    # Reset recursion limit to previous value to avoid side effects
-    sys.setrecursionlimit(old_recursion_depth)
+    sys.setrecursionlimit(max(old_recursion_depth, 10000, 1000 + 20 * n_linked))
+    try:
+        # Deep copy of score
+        new_score = copy.deepcopy(score)
+    finally:
+        # Reset recursion limit to previous value to avoid side effects
+        sys.setrecursionlimit(old_recursion_depth)
     # Transpose the notes of the copy, never those of the argument
     if isinstance(new_score, s.Score):
         parts = new_score.parts
